@@ -10,6 +10,7 @@ package c09
 import (
 	"bytes"
 	"context"
+	"errors"
 	"fmt"
 	"hash/fnv"
 	"io"
@@ -376,7 +377,14 @@ func genModifier(e *vh.Env) *config {
 }
 
 // build returns the root of the DAG of a configuration and the streams its bytes come from.
-func build(ctx context.Context, c *config, ds ipld.DAGService) (ipld.Node, []src, error) {
+func build(ctx context.Context, c *config, ds ipld.DAGService) (root ipld.Node, srcs []src, err error) {
+	defer func() {
+		// DagModifier can panic on the DAGs of finding C10-8 (Truncate of a grown inline-data
+		// root); that is C10's business: such a DAG is simply not available to read
+		if r := recover(); r != nil {
+			root, err = nil, fmt.Errorf("%w: %v", errBuildPanic, r)
+		}
+	}()
 	switch c.Kind {
 	case "importer":
 		nd, err := importFile(c, ds)
@@ -586,6 +594,8 @@ func runCase(e *vh.Env, c *config, ops []op) (term string, info walkInfo, size u
 	return term, info, size, nil
 }
 
+var errBuildPanic = errors.New("building the DAG panicked")
+
 const opTimeout = 20 * time.Second
 
 var hangs int
@@ -672,6 +682,10 @@ func TestC09(t *testing.T) {
 		}
 		term, info, size, err := runCase(e, j.c, j.ops)
 		rp := map[string]any{"config": j.c, "ops": lastOps}
+		if err != nil && j.c.Kind == "modifier" && errors.Is(err, errBuildPanic) {
+			st.Count("dag:modifier panicked while making the DAG (C10-8), skipped")
+			continue
+		}
 		if err != nil {
 			st.Violate("the harness could not run the case: "+err.Error(), "", map[string]any{"config": j.c})
 			continue
